@@ -475,11 +475,10 @@ func cmp3Literal(l core.Lit) (string, string, bool) {
 // destination), no successful return is reachable without passing through the call of the
 // allotment function, which is where the portions are checked to add up to one.
 func (c *Ctx) AllotmentValidatedBeforeSuccess(ob *core.Obligation) {
-	av := c.P.Named("internal/parser", "AllotmentValue")
-	// the validating function: switches over the allotment item kinds and builds the sum error
+	// the validating function: the one that builds the sum error
 	validators := map[*ssa.Function]bool{}
 	for _, g := range c.P.ModuleFunctions() {
-		if relOfFn(g) != "internal/interpreter" || len(clauseEntries(g, av)) == 0 {
+		if relOfFn(g) != "internal/interpreter" {
 			continue
 		}
 		for _, b := range g.Blocks {
